@@ -9,7 +9,7 @@ from .. import templates as T
 from ..cfg import CFG
 from ..model import Repo
 from ..report import Report
-from ..util import AnalysisError, call_name, chain, names_loaded, names_stored, norm, parent_map, short, walk_body
+from ..util import resolve_local, AnalysisError, call_name, chain, names_loaded, names_stored, norm, parent_map, short, walk_body
 from .c04 import type_table_rule
 
 # positive example for the check-after-use matcher (the pre-fix shape of generate_cstruct_stub)
@@ -174,6 +174,15 @@ def contradiction_rule(repo: Repo, rep: Report, rid: str) -> None:
               "generate_cstruct_stub can dereference typedef.__name__ on a string alias (cs.add_type('a', 'uint8'))", gs.loc())
 
 
+def _mentions_fresh_cstruct(fn: ast.AST, test: ast.AST) -> bool:
+    """The test consults a cstruct() created without arguments in this function (the 'built-in names' baseline), under whatever local name."""
+    for x in ast.walk(test):
+        v = resolve_local(fn, x) if isinstance(x, ast.Name) else x
+        if isinstance(v, ast.Call) and call_name(v) == "cstruct" and not v.args and not v.keywords:
+            return True
+    return False
+
+
 def completeness_rule(repo: Repo, rep: Report, rid: str) -> None:
     rep.rule(rid, "completeness of the emitter loops: every constant and typedef that is not a built-in emits a line (or raises); every structure "
                   "field gets its annotation line and its __init__ parameter unconditionally")
@@ -194,7 +203,7 @@ def completeness_rule(repo: Repo, rep: Report, rid: str) -> None:
         ok = bool(emits)
         for s in skips:
             guard = [m for m in g.nodes if m.kind == "if" and s.ast in m.ast.body]
-            builtin_skip = bool(guard) and "empty_cs" in norm(guard[0].ast.test)
+            builtin_skip = bool(guard) and _mentions_fresh_cstruct(gs.node, guard[0].ast.test)
             after_emit = g.must_pass(lp.id, s.id, emits)
             ok = ok and (builtin_skip or after_emit)
         # falling back to the loop head without emitting: every path loop->loop passes an emit, a permitted continue, or a raise
@@ -205,8 +214,8 @@ def completeness_rule(repo: Repo, rep: Report, rid: str) -> None:
     rep.floor(rid, "cstruct stub loops", n, 2)
     els = [x for x in g.nodes if x.kind == "stmt" and isinstance(x.ast, ast.Raise) and "TypeError" in norm(x.ast)]
     rep.check(bool(els), rid, f"{gs.key}:unknown-typedef", "an unknown kind of typedef raises TypeError", "unknown typedef kinds are silently skipped", gs.loc())
-    empty = [s for s in walk_body(gs.node.body) if isinstance(s, ast.Assign) and norm(s.targets[0]) == "empty_cs"]
-    rep.check(len(empty) == 1 and norm(empty[0].value) == "cstruct()", rid, f"{gs.key}:baseline", "built-ins are those of a fresh cstruct()",
+    fresh_guards = [m for m in g.nodes if m.kind == "if" and _mentions_fresh_cstruct(gs.node, m.ast.test)]
+    rep.check(len(fresh_guards) >= 2, rid, f"{gs.key}:baseline", "built-ins are those of a fresh cstruct()",
               "the set of skipped names is no longer that of a fresh cstruct()", gs.loc())
     st = repo.func("tools/stubgen.py", "generate_structure_stub")
     g = CFG(st.node)
@@ -229,11 +238,14 @@ def completeness_rule(repo: Repo, rep: Report, rid: str) -> None:
               "nested structures are inlined iff their name is not in cs.typedefs", f"the inline decision is '{short(inl[0].test, 80) if inl else None}': a nested structure "
               f"that is neither anonymous nor registered on the cstruct object would be referenced as a global type the object does not provide", st.loc())
     en = repo.func("tools/stubgen.py", "generate_enum_stub")
-    rep.check(any(isinstance(x, (ast.GeneratorExp, ast.ListComp)) and "__members__" in norm(x.generators[0].iter) for x in walk_body(en.node.body)), rid,
+    per_member = any(isinstance(x, (ast.GeneratorExp, ast.ListComp)) and "__members__" in norm(x.generators[0].iter) for x in walk_body(en.node.body)) or \
+        any(isinstance(x, ast.For) and "__members__" in norm(x.iter) and not any(isinstance(y, (ast.If, ast.Continue, ast.Break)) for y in ast.walk(x))
+            and any(isinstance(c, ast.Call) and call_name(c) in ("append", "extend") for c in ast.walk(x)) for x in walk_body(en.node.body))
+    rep.check(per_member, rid,
               f"{en.key}:members", "every member of the enum is emitted", "enum members are no longer taken from __members__", en.loc())
     # the type hint names the field's actual type
-    hint = [s for s in walk_body(st.node.body) if isinstance(s, ast.Assign) and norm(s.targets[0]) == "type_hint"]
-    rep.check(len(hint) == 1 and isinstance(hint[0].value, ast.Call) and call_name(hint[0].value) == "generate_typehint" and norm(hint[0].value.args[0]) == "field.type", rid,
+    hint = [c for c in walk_body(st.node.body) if isinstance(c, ast.Call) and call_name(c) == "generate_typehint"]
+    rep.check(len(hint) == 1 and bool(hint[0].args) and norm(resolve_local(st.node, hint[0].args[0])) == "field.type", rid,
               f"{st.key}:hint", "hint generated from field.type", "the field hint is no longer generated from field.type", st.loc())
     th = repo.func("tools/stubgen.py", "generate_typehint")
     rets = [r for r in walk_body(th.node.body) if isinstance(r, ast.Return)]
